@@ -253,9 +253,24 @@ def run(ctx):
         ctx.violation("R12-tip-cache-not-planted", f"{RMB}:{q_}", norm(a)[:80], f"{q_} writes a tip into the cache of a branch object that is not locked ({norm(a)[:60]}): lock_write() does not drop it, so a push through the object returned by create_branch() believes the remote branch is still empty and replaces whatever another client pushed meanwhile, without --overwrite")
     else:
         ctx.check("R12-tip-cache-not-planted", RMB, True, "the tip cache of a RemoteBranch is written only by the branch's own methods")
+    # ---- R13: what reaches fetch_refs as `overwrite` says whether *history* may be overwritten ----------------------------
+    n_fc = 0
+    for q_, f_ in repo.module("breezy/git/branch.py").functions().items():
+        ps_ = [a.arg for a in f_.args.args + f_.args.kwonlyargs]
+        if "overwrite" not in ps_:
+            continue
+        for c in (n_ for n_ in ast.walk(f_) if isinstance(n_, ast.Call) and call_attr(n_) == "fetch_refs"):
+            kw = [k.value for k in c.keywords if k.arg == "overwrite"]
+            if not kw:
+                continue
+            n_fc += 1
+            raw = isinstance(kw[0], ast.Name) and kw[0].id == "overwrite" and not any(isinstance(a, ast.Assign) and norm(a.targets[0]) == "overwrite" for a in walk_own(f_))
+            ctx.check("R13-history-aspect-passed-down", f"breezy/git/branch.py:{q_}", not raw, "fetch_refs is told whether history may be overwritten (a normalised value), not the caller's raw overwrite argument", construct=norm(c)[:100], message=f"{q_} passes its raw `overwrite` argument on to fetch_refs, where it is tested by truthiness: overwrite=['tags'] (`push --overwrite-tags`) switches the history divergence test off and a diverged tip is replaced")
+    ctx.require(n_fc >= 1, "no fetch_refs(..., overwrite=…) call found in breezy/git/branch.py")
 
 
 MUTANTS = [
+    Mutant("raw overwrite handed to fetch_refs again (fix a75e10b reverted)", "breezy/git/branch.py", "                    update_refs, lossy=lossy, overwrite=overwrite_history\n", "                    update_refs, lossy=lossy, overwrite=overwrite\n", expect="R13-history-aspect-passed-down"),
     Mutant("remote generate_revision_history always allows divergence (fix 30e5099 reverted)", "breezy/bzr/remote.py", "                        allow_diverged=last_rev is None,\n", "                        allow_diverged=True,\n", expect="R10-last-rev-honoured"),
     Mutant("remote git push judges divergence by the cached ref", "breezy/git/remote.py", "            old_sha = remote_refs.get(actual_refname)\n            if not overwrite and remote_divergence(", "            if not overwrite and remote_divergence(", expect="R9-divergence-against-advertised-refs"),
     Mutant("git pull expands any non-set overwrite to the full aspect set", "breezy/git/branch.py", "        if local:\n            raise errors.LocalRequiresBoundBranch()\n        if overwrite is True:\n            overwrite = {\"history\", \"tags\"}\n        elif not overwrite:\n            overwrite = set()\n", "        if local:\n            raise errors.LocalRequiresBoundBranch()\n        if not isinstance(overwrite, (set, frozenset)):\n            overwrite = {\"history\", \"tags\"} if overwrite else set()\n", expect="R8-overwrite-aspects-uniform"),
